@@ -68,6 +68,7 @@ program drv_f
   character(len=:), allocatable :: s
   character(len=30) :: fixed30
   integer(C_INT), allocatable :: iv(:), wv(:)
+  integer(C_INT), allocatable :: sq(:)
   real(C_DOUBLE), allocatable :: dv(:)
 
   call get_command_argument(1, fname)
@@ -292,6 +293,19 @@ contains
        ! a = length of the actual argument (may exceed the text: trailing blanks)
        allocate(character(len=a) :: buf); buf = text(1:min(a, len(text)))
        call sim_phase(1); r = str_in(buf); call sim_phase(0); call res_int(int(r)); deallocate(buf)
+#endif
+#ifndef SIMC
+    case ("str_count_char")
+       ! a string argument followed by a scalar char; the actual argument is an exact-fit heap block
+       allocate(character(len=a) :: buf); buf = text(1:min(a, len(text)))
+       call sim_phase(1); r = str_count_char(buf, "o"); call sim_phase(0); call res_int(int(r)); deallocate(buf)
+#endif
+#ifndef SIMC
+    case ("arr_squares")
+       ! the same allocatable variable is handed to an intent(out) allocatable argument twice in a row (the second call needs another size)
+       call sim_phase(1); call arr_squares(2_C_INT, sq); call arr_squares(int(a, C_INT), sq); call sim_phase(0)
+       sz = size(sq); sm = 0; if (sz > 0) sm = sum(sq)
+       call res_arr(sz, sm); deallocate(sq)
 #endif
 #ifndef SIMC
     case ("str_out")
